@@ -134,7 +134,8 @@ def check_c14(args):
                     fd = first_diff(c["expected"], o["rows"])
                     ek = {json.dumps(r[0]): r for r in c["expected"]}
                     only_null_to_false = all(
-                        all(e == g or (e == ["n", 0] and g == ["b", 0]) for e, g in zip(ek.get(json.dumps(row[0]), []), row))
+                        all(e == g or (e in (["n", 0], ["b", 0]) and g in (["n", 0], ["b", 0]))
+                            for e, g in zip(ek.get(json.dumps(row[0]), []), row))
                         and len(ek.get(json.dumps(row[0]), [])) == len(row) for row in o["rows"]) and len(o["rows"]) == len(c["expected"])
                     if lab.endswith(".on") and c["match"].get(f"{eng}.off") and only_null_to_false and v.is_known("F28"):
                         v.note_known("F28")
